@@ -10,6 +10,8 @@
 From mathcomp Require Import all_ssreflect all_algebra.
 From Pymoto Require Import Base.StarRing Model.SolverAlg Model.CGinv Model.AutoSolver
   Proofs.SolverAlgP Proofs.CGinvP Proofs.AutoSolverP.
+(* executable arithmetic used by the generated correspondence cases (kept in this file's dependency cone) *)
+From Pymoto Require Base.CQMat.
 Set Implicit Arguments.
 Unset Strict Implicit.
 Import GRing.Theory.
